@@ -13,7 +13,7 @@
 EXTENDS Emit
 
 Grid == IF Thorough THEN Shapes(3, 3) \cup Shapes(4, 2)
-        ELSE Shapes(2, 2) \cup {<<3>>, <<2, 3>>, <<2, 1, 2>>, <<1, 2, 1, 2>>}
+        ELSE Shapes(2, 2) \cup {<<3>>, <<2, 3>>, <<2, 1, 2>>, <<1, 2, 1, 2>>, <<6>>, <<4, 5>>, <<2, 5, 3>>}
 GridSeq == SetToSeq(Grid)
 Slopes == <<Q(1, 100), Zero, Half, QI(-1), QI(3)>>
 Acts == <<"relu", "sigmoid", "tanhact">>
